@@ -135,6 +135,7 @@ PROPS = {
         "race": False,
         "level": "fault_enumeration",
         "rlimit_as": 3 << 30,
+        "fresh_process_kinds": ("mem", "slow"),
         "budget_s": {"quick": 150, "thorough": 1500},
         "max_cases": {"quick": 0, "thorough": 0},
         "exhaustive": {"quick": True, "thorough": False},
